@@ -282,6 +282,117 @@ def run_case(c):
     return r
 
 
+# ---------------------------------------------------------------- history / object-reuse probes (round 3)
+
+GFUNCS = ('number_of_components', 'get_components', 'randmio_und_connected', 'latmio_und_connected', 'randmio_dir_connected',
+          'latmio_dir_connected')
+
+
+def two_blobs(rs, und):
+    """two rings/cliques of 3-4 nodes with weights 2..9; returns (A without the bridge, bridge cell (i, j))"""
+    n1 = int(rs.randint(3, 5)); n2 = int(rs.randint(3, 5)); n = n1 + n2
+    A = np.zeros((n, n))
+    for lo, hi in ((0, n1), (n1, n)):
+        m = hi - lo
+        blk = ring(m, und) if rs.rand() < .5 else np.ones((m, m)) - np.eye(m)
+        if not und:
+            blk = np.maximum(blk, ring(m, False))
+        A[lo:hi, lo:hi] = blk
+    A = weights(rs, A, und, 8) + (A != 0)          # weights 2..9
+    return A, (int(rs.randint(0, n1)), int(rs.randint(n1, n)))
+
+
+def probe_cases(rs, tier):
+    """specs for common.reuse_probe: call, mutate the SAME array object in place, call again, compare with fresh copies"""
+    reps = 3 if tier != 'thorough' else 28
+    out = []
+    for r in ROUTINES:
+        und = r in rc.UND
+        muts = ['cut-bridge', 'cut-bridge-threshold', 'add-bridge', 'asym', 'reweight'] if und else ['cut-bridge', 'add-bridge', 'reweight']
+        for mut in muts:
+            for _ in range(reps):
+                A, (i, j) = two_blobs(rs, und)
+                if mut != 'add-bridge':             # the bridge is the only weight-1 edge (both arcs when directed: strongly connected)
+                    A[i, j] = A[j, i] = 1
+                via = 'direct'
+                if r in rc.CONN or r in UND_CONN:
+                    u = rs.rand()
+                    if u < .35:                     # another routine / the component counter sees the same object in between
+                        via = 'pair:' + str(rs.choice([g for g in GFUNCS if g != r and (und or 'und' not in g)]))
+                    elif u < .5:
+                        via = 'edit-returned'
+                pc = {'probe': True, 'routine': r, 'A': A.tolist(), 'itr': int(rs.choice([1, 2])), 'seed': int(rs.randint(2 ** 31)),
+                      'mut': mut, 'cell': [i, j], 'via': via}
+                if r in rc.LAT and rs.rand() < .5:
+                    n = len(A); D = rs.randint(0, 7, size=(n, n)).astype(float)
+                    pc['D'] = (sym(D) if und else D).tolist()
+                if r == 'partial_und':
+                    pc['B'] = rand_graph(rs, len(A), .2, bool(rs.rand() < .5)).tolist(); pc['itr'] = int(rs.randint(1, 4))
+                out.append(pc)
+    return out
+
+
+def run_probe(pc):
+    """-> None (second call on the same objects == call on fresh copies) or the disagreement dict of common.reuse_probe"""
+    bct = import_bct()
+    r = pc['routine']; und = r in rc.UND
+    f = bct.randomize_graph_partial_und if r == 'partial_und' else getattr(bct, r)
+    A = np.array(pc['A'], dtype=float); i, j = pc['cell']
+    args = [A]
+    if r == 'partial_und':
+        args.append(np.array(pc['B'], dtype=float))
+    held = {}
+
+    def base(*a, seed=None):
+        if r == 'partial_und':
+            return f(a[0], a[1], pc['itr'], seed=seed)
+        if r in rc.LAT:
+            D = np.array(pc['D'], dtype=float) if pc.get('D') is not None else None
+            return f(a[0], pc['itr'], D=D, seed=seed)
+        return f(a[0], pc['itr'], seed=seed)
+
+    def fn(*a, seed=None):
+        if pc['via'].startswith('pair:'):
+            g = getattr(bct, pc['via'][5:])
+            try:                                     # g looks at the same array object first; its verdict is irrelevant here
+                g(a[0]) if 'components' in pc['via'] else g(a[0], 1, seed=seed)
+            except Exception:
+                pass
+        out = base(*a, seed=seed)
+        held['out'] = out
+        return out
+
+    def mutate(a):
+        W = a[0]; m = pc['mut']
+        if pc['via'] == 'edit-returned' and held.get('out') is not None:
+            o = held['out']; o = o[0] if isinstance(o, tuple) else o
+            o[...] = 0                                # the caller scribbles over the returned matrix
+        if m == 'cut-bridge':
+            W[i, j] = 0; W[j, i] = 0
+        elif m == 'cut-bridge-threshold':
+            bct.threshold_absolute(W, 1.5, copy=False)    # removes the weak bridge in place
+        elif m == 'add-bridge':
+            W[i, j] = 3; W[j, i] = 3
+        elif m == 'asym':
+            if W[i, j] % 2:
+                W[i, j] = 0
+            else:
+                W[i, j] += 1
+        elif m == 'reweight':
+            x, y = [(x, y) for x in range(len(W)) for y in range(len(W)) if W[x, y] != 0 and (x, y) != (i, j)][0]
+            W[x, y] += 4
+            if und:
+                W[y, x] = W[x, y]
+        if r == 'partial_und' and len(a) > 1:
+            a[1][i, j] = 1 - a[1][i, j]
+
+    return reuse_probe(fn, args, mutate, t=2.0 if r == 'partial_und' else 4.0, seed=pc['seed'])
+
+
+def run_job(job):
+    return run_probe(job) if job.get('probe') else run_case(job)
+
+
 def main():
     ck = Check(PID)
     ck.cov['rule'] = ('cases = (routine, matrix, itr/maxswap, seed[, D][, B]) for the four _connected routines, the four latticisers and '
@@ -290,7 +401,9 @@ def main():
                       'joined by a bridge; weights 1 or 1..9; default / random / linear / signed D, symmetric for the undirected latticisers; arbitrary 0/1 '
                       'masks: symmetric, asymmetric, one-sided), a malformed stream (asymmetric, disconnected) for the undirected _connected routines, and the two '
                       'known-finding families (connected inputs with 1..n-1 self-loops for the four _connected routines; asymmetric integer D for the two undirected '
-                      'latticisers); non-trivial = distinct case in '
+                      'latticisers); the case list is shuffled before it is dealt to the workers; plus object-reuse probes (common.reuse_probe: call, cut / add a '
+                      'bridge, break symmetry or re-weight IN PLACE - directly or with threshold_absolute(copy=False) -, call again on the same array, compare with '
+                      'fresh copies; also with another routine / number_of_components looking at the same array in between, and with the returned matrix edited); non-trivial = distinct case in '
                       'which the real routine performed at least one rewiring, or a malformed input that was rejected')
     ck.assumptions += ['the theorems carry the hypotheses EmptyDiag (all connectivity theorems) and Symm D (undirected lattice cost); the property quantifier '
                        'has neither, and on the complement the real code FAILS: inputs with self-loops (four _connected routines: disconnected / asymmetric '
@@ -310,13 +423,26 @@ def main():
     if ck.tier == 'thorough' and ok:
         ck.leanchecker(['BctVerif.Props.C11', 'BctVerif.Model.Rewire', 'BctVerif.Model.RewirePre'])
     if ck.replay:
-        cases = [json.load(open(ck.replay))['case']['case']]
+        jobs = [json.load(open(ck.replay))['case']['case']]
     else:
-        cases = rc.gen_cases(ck.rs, ck.tier, routines=ROUTINES) + extra_cases(ck.rs, ck.tier)
-        for c in cases:
+        jobs = rc.gen_cases(ck.rs, ck.tier, routines=ROUTINES) + extra_cases(ck.rs, ck.tier)
+        for c in jobs:
             if c['routine'] == 'partial_und':
                 c['t'] = 1.5     # its `while nswap < maxswap` loop cannot terminate when no swap is admissible
-    results = pmap(run_case, cases)
+        jobs += probe_cases(ck.rs, ck.tier)
+        # history across calls: every worker sees routines, options and sizes in mixed order (never grouped by routine or n)
+        jobs = [jobs[k] for k in ck.rs.permutation(len(jobs))]
+    jres = pmap(run_job, jobs)
+    # object-reuse probes: the result is a function of the argument values, not of earlier calls or of array identity
+    for pc, pr in zip(jobs, jres):
+        if not pc.get('probe'):
+            continue
+        ck.count('probe:' + pc['routine']); ck.count('probe-mut:' + pc['mut']); ck.count('probe-via:' + pc['via'].split(':')[0])
+        ck.case(sample=None, nontrivial_key=digest(['probe', pc]))
+        if pr is not None:
+            ck.violation(pc['routine'], 'result-depends-on-history', {'case': pc, 'probe': pr}, {'routine': pc['routine'], 'mut': pc['mut']})
+    cases = [c for c in jobs if not c.get('probe')]
+    results = [r for c, r in zip(jobs, jres) if not c.get('probe')]
     lines, idx = [], []
     for n_, (c, r) in enumerate(zip(cases, results)):
         rt = c['routine']
